@@ -100,7 +100,13 @@ def run_one(tape, opts):
         obs = list(observed)
         snapshot = copy.deepcopy(obs)
         try:
-            mm = MatchesSetwise(*matchers).match(obs)
+            ms = MatchesSetwise(*matchers)
+            before = list(ms.matchers)
+            mm = ms.match(obs)
+            # the same matcher object, used again: on the same value, and on a permutation of it
+            again = ms.match(list(observed))
+            rotated = observed[1:] + observed[:1]
+            rot = ms.match(list(rotated))
         except Exception as e:
             out.violate("match-raised", type(e).__name__, f"specs {specs} observed {observed}: {e!r}")
             continue
@@ -108,6 +114,14 @@ def run_one(tape, opts):
         orders.append(hashes)
         if obs != snapshot:
             out.violate("mutated", "observed", f"{snapshot} -> {obs}")
+        after = list(ms.matchers)
+        if len(after) != len(before) or any(a is not b for a, b in zip(after, before)):
+            out.violate("mutated", "matcher", f"MatchesSetwise.matchers changed from {[str(x) for x in before]} to {[str(x) for x in after]} by matching {observed}")
+        if (again is None) != (mm is None):
+            out.violate("verdict-order-dependent", "repeated-match", f"matchers {specs} observed {observed}: first match {mm is None}, second {again is None}")
+        if (rot is None) != want:
+            out.violate("verdict-not-assignment", "permuted-observed:" + ("false-mismatch" if want else "false-match"),
+                        f"matchers {specs} observed {rotated} (after matching {observed} with the same matcher): matched={rot is None}, assignment exists={want}")
         if mm is not None:
             try:
                 if not isinstance(mm.describe(), str):
